@@ -287,6 +287,18 @@ def valueEvaluateKeys : List (String × String) :=
   [("X , X", "vmake_sequence"), ("X ( _ ) _", "vmake_call"), ("X ( X ) _", "vmake_call"),
    ("X = X", "vmake_keyword"), ("SYMBOL", "vmake_symbol")]
 
+/-- `Call.problems` on a capture whose name starts with `#`: `#loop_X` / `#endloop_X` are always
+    accepted, otherwise the name must be one of the documented meta-variables -/
+def isPrefixOf (p s : List Char) : Bool :=
+  match p, s with
+  | [], _ => true
+  | _ :: _, [] => false
+  | a :: p', b :: s' => a == b && isPrefixOf p' s'
+
+def hashvarAccepted (valid : List String) (name : String) : Bool :=
+  isPrefixOf "#loop_".toList name.toList || isPrefixOf "#endloop_".toList name.toList ||
+    valid.contains name
+
 def liftP {α} : Except PErr α → Except Err α
   | .ok a => .ok a
   | .error (.invalidToken off) => .error (.syntax off)
